@@ -164,6 +164,10 @@ Proof.
   - inversion H; subst. apply fs_get_put_other. congruence.
   - destruct (export_table Ops fmt6 header data dims); cbn in H; try discriminate.
     inversion H; subst. apply fs_get_put_other. congruence.
+  - destruct (export_function_list Ops fmt6 header func xs dims); cbn in H; try discriminate.
+    inversion H; subst. apply fs_get_put_other. congruence.
+  - destruct (export_function_range Ops fmt6 header func xmin xmax steps dims logarithmic); cbn in H; try discriminate.
+    inversion H; subst. apply fs_get_put_other. congruence.
   - destruct (import_list Ops (fs_get fs p0) dim ignored); cbn in H; try discriminate. inversion H; subst; reflexivity.
   - destruct (import_table Ops (fs_get fs p0) dims ignored); cbn in H; try discriminate. inversion H; subst; reflexivity.
   - inversion H; subst; reflexivity.
@@ -261,6 +265,87 @@ Proof.
   cbn [io_run io_step]. rewrite Hget, RT. cbn [rbind fst snd]. rewrite ?Hget.
   rewrite (count_lines_export_list Ops fmt6 header data dim Hl). reflexivity.
 Qed.
+(** *** Export_Function inside a session.
+    Any calls [before], then Export_Function(file p, f, x_list, units, header), then any calls [between] that do not export
+    to [p], then Import_Table from [p] and Count_Lines: ONE ROW PER ARGUMENT of x_list, in the order of the list — there is
+    no premise on the arguments (sorted or not, repeated, equal neighbours, signed zeros, NaN): the number of rows is
+    [length xs] and row i is (x_i, f(x_i)) through format and units. *)
+Theorem session_function_roundtrip fs before fs1 outs1 p header (func : T -> T) xs dims between fs2 outs2 :
+  run fs before = Ok (fs1, outs1) ->
+  xs <> [] -> dims = [] \/ length dims = 2%nat ->
+  (Z.of_nat (length header + length xs) < 4294967296)%Z -> (Z.of_nat (length xs * 2) < 4294967296)%Z ->
+  forall fexp, export_function_list Ops fmt6 header func xs dims = Ok fexp ->
+  run (fs_put fs1 p fexp) between = Ok (fs2, outs2) ->
+  Forall (fun o => writes o <> Some p) between ->
+  run fs (before ++ OExportFunction p header func xs dims :: between ++ [OImportTable p dims (length header); OCountLines p]) =
+  Ok (fs2, outs1 ++ RUnit :: outs2 ++ [RTable (map (fun x => [back Ops fmt6 dims 0 x; back Ops fmt6 dims 1 (func x)]) xs);
+                                        RCount (Z.of_nat (length header + length xs))]).
+Proof.
+  intros Hb Hne Hd Hl Hs fexp Hexp Hbt Hw.
+  rewrite (run_app before _ fs fs1 outs1 Hb).
+  cbn [io_run io_step]. rewrite Hexp. cbn [rbind fst snd].
+  rewrite (run_app between _ _ fs2 outs2 Hbt).
+  pose proof (run_preserves between _ _ _ p Hbt Hw) as Hget. rewrite fs_get_put_same in Hget.
+  pose proof (roundtrip_function_eq Ops fmt6 header func xs dims Hne Hd Hl Hs) as RT.
+  unfold roundtrip_function_list in RT. rewrite Hexp in RT. cbn [rbind] in RT.
+  cbn [io_run io_step]. rewrite Hget.
+  destruct (import_table Ops (Some fexp) dims (length header)) as [t| | |] eqn:Ei; cbn [rbind] in RT; try discriminate.
+  inversion RT; subst. cbn [rbind fst snd]. rewrite ?Hget. unfold count_lines. rewrite H0. reflexivity.
+Qed.
+
+(** the number of rows read back is the number of arguments, and equal arguments give equal rows *)
+Corollary function_rows_one_per_argument (header : list (@line T)) (func : T -> T) xs dims c t :
+  xs <> [] -> dims = [] \/ length dims = 2%nat ->
+  (Z.of_nat (length header + length xs) < 4294967296)%Z -> (Z.of_nat (length xs * 2) < 4294967296)%Z ->
+  roundtrip_function_list Ops fmt6 header func xs dims = Ok (c, t) ->
+  length t = length xs /\ c = Z.of_nat (length header + length xs) /\
+  forall i j, (i < length xs)%nat -> (j < length xs)%nat -> nth i xs (n0 Ops) = nth j xs (n0 Ops) -> nth i t [] = nth j t [].
+Proof.
+  intros Hne Hd Hl Hs H. rewrite (roundtrip_function_eq Ops fmt6 header func xs dims Hne Hd Hl Hs) in H.
+  inversion H; subst. rewrite map_length. repeat split; auto.
+  intros i j Hi Hj E.
+  set (g := fun x => [back Ops fmt6 dims 0 x; back Ops fmt6 dims 1 (func x)]).
+  rewrite (nth_indep (map g xs) [] (g (n0 Ops))) by (rewrite map_length; exact Hi).
+  rewrite (nth_indep (map g xs) [] (g (n0 Ops))) by (rewrite map_length; exact Hj).
+  rewrite !map_nth, E. reflexivity.
+Qed.
+
+(** the range overload is the list overload on the grid, as a call of a session too *)
+Lemma step_function_range fs p header (func : T -> T) a b steps dims lg :
+  step fs (OExportFunctionRange p header func a b steps dims lg) =
+  step fs (OExportFunction p header func (grid Ops a b steps lg) dims).
+Proof. unfold grid. destruct lg; reflexivity. Qed.
+
+Lemma run_step_congr o o' (E : forall fs, step fs o = step fs o') before : forall fs rest,
+  run fs (before ++ o :: rest) = run fs (before ++ o' :: rest).
+Proof.
+  induction before as [|x tl IH]; intros fs rest; cbn [app io_run].
+  - rewrite E. reflexivity.
+  - destruct (step fs x) as [[fsa r]| | |]; cbn [rbind]; try reflexivity. rewrite IH. reflexivity.
+Qed.
+
+Theorem session_function_range_roundtrip fs before fs1 outs1 p header (func : T -> T) a b steps lg dims between fs2 outs2 :
+  let xs := grid Ops a b steps lg in
+  run fs before = Ok (fs1, outs1) ->
+  dims = [] \/ length dims = 2%nat ->
+  (Z.of_nat (length header + Nat.max 1 steps) < 4294967296)%Z -> (Z.of_nat (Nat.max 1 steps * 2) < 4294967296)%Z ->
+  forall fexp, export_function_list Ops fmt6 header func xs dims = Ok fexp ->
+  run (fs_put fs1 p fexp) between = Ok (fs2, outs2) ->
+  Forall (fun o => writes o <> Some p) between ->
+  (length xs = if (Nat.ltb steps 2) || neqb Ops a b then 1%nat else steps) /\
+  run fs (before ++ OExportFunctionRange p header func a b steps dims lg :: between ++ [OImportTable p dims (length header); OCountLines p]) =
+  Ok (fs2, outs1 ++ RUnit :: outs2 ++ [RTable (map (fun x => [back Ops fmt6 dims 0 x; back Ops fmt6 dims 1 (func x)]) xs);
+                                        RCount (Z.of_nat (length header + length xs))]).
+Proof.
+  intros xs Hb Hd Hl Hs fexp Hexp Hbt Hw.
+  pose proof (grid_length Ops a b steps lg) as L. fold xs in L. split; [exact L|].
+  assert (Hle : (1 <= length xs <= Nat.max 1 steps)%nat).
+  { rewrite L. destruct (Nat.ltb steps 2 || neqb Ops a b) eqn:E; [lia|].
+    apply orb_false_iff in E as [E _]. apply Nat.ltb_ge in E. lia. }
+  rewrite (run_step_congr _ _ (fun fs0 => step_function_range fs0 p header func a b steps dims lg)).
+  apply (session_function_roundtrip fs before fs1 outs1 p header func xs dims between fs2 outs2) with (fexp := fexp); auto; try lia.
+  intros E0. rewrite E0 in Hle. cbn in Hle. lia.
+Qed.
 End SessionProofs.
 
 (** non-vacuity: a 3 x 3 table is written to path 0 and read; then the (shorter) 1 x 2 table with a two-line header and two
@@ -285,6 +370,31 @@ Proof.
   - lia.
   - repeat constructor.
   - right; reflexivity.
+  - cbn; lia.
+  - cbn; lia.
+  - reflexivity.
+  - reflexivity.
+  - repeat constructor; discriminate.
+Qed.
+
+(** non-vacuity of the function session theorem, with a REPEATED argument: a table is at path 0; the function x -> x*x is
+    tabulated at the arguments 1, 2, 2, 3 (two grids joined at 2) under a one-line header to the same path; after a call
+    on another path, four rows are read back and five lines counted *)
+Definition session_function_example_stmt : Prop :=
+  exists fs',
+  io_run ROps (fun y => y) []
+    ([OExportTable 0 [] [[1; 2; 3]] []] ++ OExportFunction 0 [[Word]] (fun x => x * x) [1; 2; 2; 3] [] ::
+     [OCountLines 1] ++ [OImportTable 0 [] 1; OCountLines 0])%R =
+  Ok (fs', [RUnit] ++ RUnit :: [RCount 0] ++
+           [RTable (map (fun x => [back ROps (fun y => y) [] 0 x; back ROps (fun y => y) [] 1 (x * x)]) [1; 2; 2; 3]); RCount 5])%R.
+Example session_function_example : session_function_example_stmt.
+Proof.
+  unfold session_function_example_stmt. eexists.
+  refine (session_function_roundtrip ROps (fun y => y) [] [OExportTable 0 [] [[1; 2; 3]] []]%R _ _ 0%nat
+            [[Word]] (fun x => x * x)%R [1; 2; 2; 3]%R [] [OCountLines 1] _ _ _ _ _ _ _ _ _ _ _).
+  - reflexivity.
+  - discriminate.
+  - left; reflexivity.
   - cbn; lia.
   - cbn; lia.
   - reflexivity.
